@@ -24,10 +24,15 @@ Record dvariants := {
   dv_astype_num_keeps_w : bool;   (* TensorSpace._astype keeps the weighting for every numeric target
                                      (current code: only for floating-point targets) *)
   dv_ps_astype_keeps_w : bool;    (* ProductSpace.astype/real_space/complex_space keep the product weighting *)
-  dv_ps_getitem_keeps_w : bool    (* ProductSpace.__getitem__ (slice/list) keeps a constant product weighting *)
+  dv_ps_getitem_keeps_w : bool;   (* ProductSpace.__getitem__ (slice/list) keeps a constant product weighting *)
+  dv_byaxis_nonnum_ok : bool      (* byaxis does not pass a weighting for non-numeric dtypes *)
 }.
 Definition current_dvariants :=
-  {| dv_astype_num_keeps_w := false; dv_ps_astype_keeps_w := false; dv_ps_getitem_keeps_w := false |}.
+  {| dv_astype_num_keeps_w := false; dv_ps_astype_keeps_w := false; dv_ps_getitem_keeps_w := false;
+     dv_byaxis_nonnum_ok := false |}.
+Definition repaired_dvariants :=
+  {| dv_astype_num_keeps_w := true; dv_ps_astype_keeps_w := true; dv_ps_getitem_keeps_w := true;
+     dv_byaxis_nonnum_ok := true |}.
 
 (* ------------------------------------------------------------ Python slices and indices *)
 (* slice(start, stop, step).indices(n) and the positions range(start, stop, step) *)
@@ -245,10 +250,10 @@ Fixpoint getitem_tuple (t : list idx1) (a : obj T) {struct t} : res (obj T) :=
           | XSlice sl =>
               rbind (select_slice l sl) (fun ss =>
                 match rest with
-                | [] => mk_prod ss None None
+                | [] => mk_prod ss (sub_w w) None
                 | _ => if Nat.eqb (length ss) 0 then ErrIndex
                        else if forallb is_prod ss
-                       then rbind (rall (map (getitem_tuple rest) ss)) (fun ss' => mk_prod ss' None (Some f))
+                       then rbind (rall (map (getitem_tuple rest) ss)) (fun ss' => mk_prod ss' (sub_w w) (Some f))
                        else ErrIndex
                 end)
           end
@@ -303,7 +308,8 @@ Definition tsp_byaxis (t : tsp T) (i : aidx) : res (tsp T) :=
         rbind (arr_index_shape (ts_shape t) i) (fun ash =>
           rbind (mk_tsp sh (ts_dtype t) (Some (WArray KNpy fresh_id e))) (fun t' =>
             if Zs_eqb ash sh then Ok t' else ErrValue))
-    | w => mk_tsp sh (ts_dtype t) (Some w)
+    | w => mk_tsp sh (ts_dtype t)
+             (if dv_byaxis_nonnum_ok dv && negb (is_numeric (ts_dtype t)) then None else Some w)
     end).
 
 End D.
